@@ -47,5 +47,9 @@ CLAIMED = {
    text="Proof level for the clauses that decide what a send Deferred may be fired with: every call of _deliver_result inside _check_retry_payloads is proved to pass ack_ok(result) - None only with acks=0, an error-free ProduceResponse, or a Failure, never a bare exception (the defect fixed in 07da27c); send_messages returns a fresh unfired Deferred. The remaining branches of _handle_send_response (polymorphic result) are covered by the bounded scenario stand-in.",
    note="Relative to the client contract (C07) and a broker that answers each partition sent; not an end-to-end statement about a real broker.",
    ref='DESIGN.md section 8 C01, section 12'),
+ 'C11': dict(
+   text="Proof level for KafkaClient._make_request_to_broker and its two closures: exactly one timer per request armed with the client timeout (or max(timeout, minimum) for group joins); the timeout callback records a RequestTimedOutError failure before it cancels the request and disconnects iff configured; the completion callback always leaves the timer inactive (released when the reply comes first) and substitutes the timeout failure when one was recorded. Late replies to a timed-out (tombstoned) request fire nothing (brokerclient.handleResponse, C06 invariant).",
+   note="That the timer fires at issued+T is the reactor's contract: the bound is proved in timer events, not seconds. Trusted: Twisted Deferred/IDelayedCall contracts, pyvc.",
+   ref='DESIGN.md section 8 C11, section 12'),
 }
 NOT_APPLICABLE = {}
